@@ -458,7 +458,7 @@ def run_types(ctx, pt):
     base = ctx.attempt(f, m)
     if base[0] != 'ok':
         return
-    for conv in (bytearray, memoryview):
+    for conv in (bytearray, memoryview, list):
         a = conv(m)
         r = ctx.attempt(f, a)
         if r[0] == 'ok':
@@ -581,7 +581,7 @@ def run_firstuse(ctx, pt):
 
 def subchecks():
     return [Sub('argument-types', pts_types, run_types, engine='P',
-                bound='24 object kinds x 7 message lengths: the message as bytes, bytearray and memoryview - a returned value equals the one for bytes (refusals are not judged)'),
+                bound='24 object kinds x 7 message lengths: the message as bytes, bytearray, memoryview and list of ints - a returned value equals the one for bytes (refusals are not judged)'),
             Sub('first-use-pairs', pts_firstuse, run_firstuse, engine='H', chunk=1,
                 bound='every ordered pair (A, B) of 77 configurations (every SHA-2 / SHA-3 / BLAKE / BLAKE2 size incl. the unusual ones, module instances, Keccak, Skein, MD6, HMAC, AES / DES / TDEA / Serpent / Threefish in both directions, modes, stream ciphers, TLSH, Nilsimsa, CRC): A is used first in a fresh process, then B; B answers what it answers when it is the first thing the process does'),
             Sub('long-runs', pts_long, run_long, engine='H', exhaustive=False, chunk=1,
